@@ -61,6 +61,10 @@ pub struct TlsCase {
     /// bit0: client offers h2, bit1: client offers http/1.1, bit2: server offers h2, bit3: server offers http/1.1
     pub alpn: u8,
     pub client_tls: bool,
+    /// the transport first gets a decoy TLS configuration (other trust roots, other ALPN) which is
+    /// then replaced by the real one: the configuration in force is the last one set
+    #[serde(default)]
+    pub reconfig: bool,
 }
 
 // ------------------------------------------------------------------------------------------------
@@ -130,6 +134,18 @@ pub fn alpn_outcome(alpn: u8) -> AlpnOutcome {
         Some(p) => AlpnOutcome::Proto(p),
         None => AlpnOutcome::Conflict,
     }
+}
+
+/// A configuration that trusts only the *other* CA (the one that signed the `untrusted` fixture)
+/// and offers a different ALPN list: used as the configuration that gets replaced.
+pub fn decoy_client_config() -> rustls::ClientConfig {
+    let mut roots = rustls::RootCertStore::empty();
+    for c in pem_certs(include_bytes!("../../../fixtures/tls/ca2.pem")) {
+        roots.add(c).unwrap();
+    }
+    let mut cfg = rustls::ClientConfig::builder().with_root_certificates(roots).with_no_client_auth();
+    cfg.alpn_protocols = vec![b"decoy/1".to_vec()];
+    cfg
 }
 
 pub fn client_config(alpn: u8) -> rustls::ClientConfig {
@@ -417,9 +433,18 @@ impl Engine for TlsEngine {
         let parts = http::Request::get(parsed).body(()).unwrap().into_parts().0;
         let client_tls = c.client_tls;
         let alpn = c.alpn;
+        let reconfig = c.reconfig;
         let res = std::panic::catch_unwind(std::panic::AssertUnwindSafe(|| {
             rt.block_on(async move {
-                let t = if client_tls { transport.with_tls(Arc::new(client_config(alpn))) } else { transport.without_tls() };
+                let t = if client_tls {
+                    if reconfig {
+                        transport.with_tls(Arc::new(decoy_client_config())).with_tls(Arc::new(client_config(alpn)))
+                    } else {
+                        transport.with_tls(Arc::new(client_config(alpn)))
+                    }
+                } else {
+                    transport.without_tls()
+                };
                 let fut = async move {
                     match t.oneshot(parts).await {
                         Err(e) => Err(format!("{e}")),
@@ -561,6 +586,7 @@ pub fn strategy() -> impl proptest::strategy::Strategy<Value = TlsCase> {
         any::<u16>(),
         prop_oneof![3 => 0u8..16, 1 => 16u8..64],
         prop_oneof![5 => Just(true), 1 => Just(false)],
+        prop_oneof![2 => Just(false), 1 => Just(true)],
     )
-        .prop_map(|(scheme, (host, ghost), port, peer, arg, alpn, client_tls)| TlsCase { scheme, host, ghost, port, peer, arg, alpn, client_tls })
+        .prop_map(|(scheme, (host, ghost), port, peer, arg, alpn, client_tls, reconfig)| TlsCase { scheme, host, ghost, port, peer, arg, alpn, client_tls, reconfig })
 }
